@@ -200,7 +200,7 @@ impl Worker {
     }
 
     fn wait_settled(&self) -> Result<WState, String> {
-        let deadline = Instant::now() + Duration::from_secs(30);
+        let deadline = Instant::now() + Duration::from_secs(120);
         let mut st = self.shared.st.lock().unwrap();
         loop {
             match &*st {
@@ -209,7 +209,7 @@ impl Worker {
             }
             let now = Instant::now();
             if now >= deadline {
-                return Err(format!("worker {} did not settle within 30 s", self.name));
+                return Err(format!("worker {} did not settle within 120 s", self.name));
             }
             st = self.shared.cv.wait_timeout(st, Duration::from_millis(200)).unwrap().0;
         }
